@@ -111,6 +111,7 @@ type observation struct {
 	dreqs  []dreq
 	rpcs   []string
 	note   string // "" or infrastructure problem
+	cut    bool   // the proxy closed the connection before a complete response arrived
 }
 
 func hx(b []byte) string  { return hex.EncodeToString(b) }
@@ -599,14 +600,31 @@ func (w *world) exec(c *tcase) (obs observation) {
 		obs.note = "write:" + err.Error()
 		return
 	}
+	collect := func() {
+		p.Shutdown(context.Background())
+		tracker.settle()
+		w.d.mu.Lock()
+		obs.dreqs = append([]dreq(nil), w.d.record...)
+		w.d.mu.Unlock()
+		w.rec.mu.Lock()
+		obs.rpcs = append([]string(nil), w.rec.calls...)
+		w.rec.mu.Unlock()
+	}
 	res, err := http.ReadResponse(bufio.NewReader(conn), &http.Request{Method: c.method})
 	if err != nil {
 		obs.note = "read:" + err.Error()
+		obs.cut = true
+		collect()
 		return
 	}
 	body, err := io.ReadAll(res.Body)
 	if err != nil {
 		obs.note = "readbody:" + err.Error()
+		obs.cut = true
+		obs.status = res.StatusCode
+		obs.body = body
+		obs.dhdr = res.Header.Get("X-Daemon-Hdr")
+		collect()
 		return
 	}
 	res.Body.Close()
@@ -904,6 +922,16 @@ func (w *world) runCase(out *common.Out, c *tcase) {
 	}
 	if o.note == "" && o.status == 502 && len(o.dreqs) == 0 && c.dStatus != 502 {
 		o.note = "proxy-could-not-dial-daemon"
+	}
+	if o.note != "" && o.cut && (c.delayMs > 0 || c.gapMs > 0) && len(o.dreqs) > 0 {
+		// three times in a row the proxy cut the client off while the (slow) daemon was being asked: that is the
+		// behaviour of the code under test, not an infrastructure problem. Reported as status 0 / what arrived.
+		if !strings.HasPrefix(o.note, "readbody:") {
+			o.status, o.body, o.dhdr = 0, nil, ""
+		} else {
+			o.status = 0
+		}
+		o.note = ""
 	}
 	if o.note != "" {
 		out.Line("# inconclusive %s :: %s", o.note, inputTokens(c))
